@@ -237,7 +237,7 @@ theorem insert_spec [DecidableEq α] (h : Hashlin α) (iv : Inv h) (d : α) (key
     by_cases hx : x = ⟨key, d⟩
     · subst hx; simp
     · have : (⟨key, d⟩ : HNode α) ≠ x := fun e => hx e.symm
-      simp [hx, List.count_cons, this]
+      simp [hx, this]
 
 /-- `tommy_hashlin_search`: finds a node exactly if one with that key satisfying `cmp` is stored -/
 theorem search_isSome_iff {h : Hashlin α} (w : Wf h) (cmp : α → Bool) (key : Nat) :
@@ -338,7 +338,7 @@ theorem remove_some [DecidableEq α] {h : Hashlin α} (iv : Inv h) (cmp : α →
       by_cases hx : x = n
       · subst hx; simp at this ⊢; omega
       · have hne : n ≠ x := fun e => hx e.symm
-        simp [hx, List.count_cons, hne] at this ⊢; omega
+        simp [hx, hne] at this ⊢; omega
 
 /-- `tommy_hashlin_remove_existing` of a stored node -/
 theorem removeExisting_spec [DecidableEq α] {h : Hashlin α} (iv : Inv h) (n : HNode α) (hm : h.Mem n) :
@@ -385,7 +385,7 @@ theorem removeExisting_spec [DecidableEq α] {h : Hashlin α} (iv : Inv h) (n : 
     by_cases hx : x = n
     · subst hx; simp at this ⊢; omega
     · have hne : n ≠ x := fun e => hx e.symm
-      simp [hx, List.count_cons, hne] at this ⊢; omega
+      simp [hx, hne] at this ⊢; omega
 
 theorem sumB_length_pos_of_mem {β : Type} (x : β) (b : Nat → List β) (n i : Nat) (hi : i < n) (hx : x ∈ b i) :
     0 < sumB List.length b n := by
